@@ -80,18 +80,19 @@ theorem snapshot_timers_from_events (s0 : St) (hf : Fresh s0) (as : List Act) (h
   rw [snapshot_timers s0 hf as hpl pre post id S T h] at ht
   exact mem_timersOf pre s0.timers ht
 
-/-- **Post-barrier events are blocked.** After the barrier of sender `sr` has been accepted, the consumer takes no
-further item of `sr` (keyed event, watermark — hence no timer firing caused by it — barrier or source-complete)
-until a snapshot has been taken. -/
+/-- **Post-barrier events are blocked.** After the barrier `id` of sender `sr` has been accepted, the consumer takes
+no further item of `sr` (keyed event, watermark — hence no timer firing caused by it — barrier or source-complete)
+until a snapshot has been taken, and the first snapshot taken after it is the one of checkpoint `id`. -/
 theorem post_barrier_blocked (s0 : St) (hf : Fresh s0) (as : List Act) (hpl : Plain as) (pre mid post : List Obs)
-    (sr id : Nat) (it : Item)
+    (sr id : Nat) (it : Item) (hsr : sr < s0.k)
     (h : (runFrom s0 [] as).2 = pre ++ Obs.reg sr id :: (mid ++ Obs.proc sr it :: post)) :
-    ∃ id' S T, Obs.snap id' S T ∈ mid := by
+    ∃ m1 S T m2, mid = m1 ++ Obs.snap id S T :: m2 ∧ ∀ id' S' T', Obs.snap id' S' T' ∉ m1 := by
   obtain ⟨_, _, _, hal, _⟩ := run_ok hf as hpl
   rw [h, alignOK_append] at hal
+  have hu := alignOK_uniqueKeys pre [] uniqueKeys_nil hal.1
   have h2 := hal.2
   simp only [alignOK] at h2
-  exact alignOK_blocked mid _ post ⟨id, List.mem_cons_self⟩ h2
+  exact alignOK_blocked_id hsr mid _ post (hu.cons h2.1) List.mem_cons_self h2.2
 
 /-- the same as a state invariant: while checkpoint `id` is in progress, a sender whose barrier is no longer
 missing has delivered that barrier as its last item and is not standing at the gate in front of the consumer -/
@@ -153,12 +154,14 @@ theorem no_stranded_sender (s0 : St) (hf : Fresh s0) (as : List Act) (hpl : Plai
   obtain ⟨_, hinv, _⟩ := run_ok hf as hpl
   exact hinv.parked sr it h
 
-/-- **A cancelled call stays where it is.** Cancelling the context of a call in flight (the client gave up) changes
-nothing: a sender parked behind its barrier stays parked — its post-barrier event cannot slip in before the
-capture — and all theorems above hold for schedules with cancellations (`cancel` is a plain action). -/
-theorem cancel_changes_nothing (s : St) (sr : Nat) : step s (Act.cancel sr) = (s, []) := by
-  unfold step
-  split <;> rfl
+/-- **Cancellations are invisible.** Cancelling the context of calls in flight (clients giving up) at any points of
+any schedule yields exactly the state and trace — hence the same checkpoints with the same contents — as the
+schedule without the cancellations: a sender parked behind its barrier stays parked, its post-barrier event cannot
+slip in before the capture. (Neither the wait on `allBarriersReceived` nor the hand-over to the consumer looks at
+the context; the harness checks the real operator against this with `cancel` ops.) -/
+theorem cancellations_are_invisible (s : St) (as : List Act) :
+    runFrom s [] as = runFrom s [] (as.filter fun a => !a.isCancel) :=
+  runFrom_filter_cancel as s []
 
 /-! ## epochs: the initial state and every redeploy start a fresh epoch -/
 
@@ -188,6 +191,64 @@ theorem redeploy_is_fresh (s : St) (hlive : s.stopped = false) (haf : s.ackFails
     simp only [redeploy]
     rw [hs]
 
+/-- **The cut of an epoch started by a redeploy (partial, open finding D45).**
+Full statement wanted by the property: after a redeploy every checkpoint of the new deployment is cut from what the
+new deployment's runners delivered in it, i.e. for every snapshot of the new epoch
+`userOf (entriesOf pre) = userProcs (procsOf pre)` where every taken item was handed in after the redeploy.
+The code does not give that: `HandleDeploy` keeps the event batcher and the calls that already passed alignment, so
+the keyed events waiting in the batcher at the redeploy (`userOf s.pending`) head the first cut of the new epoch and
+calls of the previous deployment are still taken (`epoch_cut_counterexample`). Proved here, for any state `s` with
+any history (failed acks included) in which the job is reachable: all guarantees of `consistent_cut` hold for the
+new epoch relative to the restored (empty) state, with exactly that surviving prefix. -/
+theorem epoch_cut_partial (s : St) (hlive : s.stopped = false) (haf : s.ackFails = false) (as : List Act)
+    (hpl : Plain as) (pre post : List Obs) (id : Nat) (S : KVf) (T : Timers)
+    (h : (runFrom (step s Act.redeploy).1 [] as).2 = pre ++ Obs.snap id S T :: post) :
+    S = (entriesOf pre).foldl applyRec emptyKV ∧
+    userOf (entriesOf pre) = userOf s.pending ++ userProcs (procsOf pre) ∧
+    (∀ sr, sr < s.k → lastProc sr (procsOf pre) = some (Item.bar id)) ∧
+    T = timersOf [] pre := by
+  obtain ⟨hfresh, _, _⟩ := redeploy_is_fresh s hlive haf
+  have hst : step s Act.redeploy = redeploy s := by
+    unfold step
+    rw [if_neg (by simp [hlive])]
+    rfl
+  obtain ⟨c1, c2, c3⟩ := consistent_cut _ hfresh as hpl pre post id S T h
+  have c4 := snapshot_timers _ hfresh as hpl pre post id S T h
+  rw [hst] at c1 c2 c3 c4
+  exact ⟨c1, c2, c3, c4⟩
+
+/-- the full statement holds when the redeploy finds the batcher empty and no call past alignment — the exact
+condition excluded above; then every item taken in the new epoch was also handed in during it -/
+theorem epoch_cut_of_clean_redeploy (s : St) (hlive : s.stopped = false) (haf : s.ackFails = false)
+    (hempty : s.pending = []) (as : List Act) (hpl : Plain as) (pre post : List Obs) (id : Nat) (S : KVf)
+    (T : Timers) (h : (runFrom (step s Act.redeploy).1 [] as).2 = pre ++ Obs.snap id S T :: post) :
+    userOf (entriesOf pre) = userProcs (procsOf pre) := by
+  have := (epoch_cut_partial s hlive haf as hpl pre post id S T h).2.1
+  simpa [hempty, userOf] using this
+
+/-- **Counterexample (D45).** Sender 0's keyed event waits in the batcher (batch size 3) when the operator is
+redeployed; in the new epoch both senders only deliver barrier 1 — and checkpoint 1 of the new deployment contains
+the old event: the handler received a keyed event that no runner delivered in this epoch. -/
+def leakState : St := (run 2 3 [.align 0 (.ev [0x61] 7 0), .go 0]).1
+def leakEpoch : List Act := [.align 0 (.bar 1), .go 0, .align 1 (.bar 1), .go 1]
+
+theorem epoch_cut_counterexample :
+    ∃ pre id S T post, (runFrom (step leakState Act.redeploy).1 [] leakEpoch).2 = pre ++ Obs.snap id S T :: post ∧
+      Plain leakEpoch ∧ userOf (entriesOf pre) ≠ userProcs (procsOf pre) := by
+  have hc : firstCut [] [] (runFrom (step leakState Act.redeploy).1 [] leakEpoch).2 =
+      some ([(0, [0x61], 7, 0)], []) := by rfl
+  obtain ⟨pre, id, S, T, post, e, hu, hv⟩ := firstCut_spec _ _ _ _ _ hc
+  refine ⟨pre, id, S, T, post, e, by unfold Plain; decide, ?_⟩
+  simp only [List.nil_append] at hu hv
+  rw [← hu, ← hv]
+  decide
+
+/-- with the redeploy the property asks for (`redeploySpec`: batcher emptied, every call in flight turned away) the
+new epoch starts clean: fresh, nothing pending, no call in flight -/
+theorem redeploySpec_is_clean (s : St) (haf : s.ackFails = false) :
+    Fresh (redeploySpec s).1 ∧ (redeploySpec s).1.pending = [] ∧ ∀ sr, (redeploySpec s).1.slots sr = none :=
+  ⟨⟨rfl, by intro sr it; simp [redeploySpec], haf⟩, rfl, fun _ => rfl⟩
+
 /-- **An abandoned call is never applied.** For every schedule whatsoever (any start state, failures and redeploys
 included): once a redeploy has turned sender `sr` away (it was parked behind its barrier of the abandoned
 checkpoint), the consumer takes an item of `sr` only after `sr` has started a new `HandleEvent` call — the
@@ -212,25 +273,24 @@ run on, and `resume`. -/
 /-- all plain actions of a schedule with holds -/
 def HPlain (has : List HAct) : Prop := ∀ a ∈ HAct.bases has, a.plain = true
 
-/-- **A released sender waits for the capture.** While the consumer is held inside the last barrier's handler, a
-sender that runs on (woken or already at the gate) changes nothing and is not served: it can only queue on the
-consumer's channel. On `resume` the consumer first finishes the handler of the held barrier — flush, DKV capture,
-ack, reset — and only then takes the queued senders' items: the trace of `resume` is the trace of `go sr0`
-followed by the `go`s of the queue, so a woken sender's post-barrier event is never in the pending batch that
-the barrier handler flushes into checkpoint N. -/
+/-- **A released sender waits for the capture.** When the consumer, held inside the last barrier's handler, resumes,
+it first finishes that handler — flush, DKV capture, ack, reset — then takes the items of the senders that ran on
+while it was held, and only then are calls started in the meantime aligned: the trace of `resume` is the trace of
+`go sr0`, then the `go`s of the queue, then the `align`s of the blocked calls. So a woken sender's post-barrier
+event is never in the pending batch the barrier handler flushes into checkpoint N. (That a sender running on can
+do nothing but queue is the modelling assumption about the unbuffered channel; it is what the `gohold` ops check
+on the real operator, and `held_schedule_is_plain_schedule` turns it into: holds change no trace.) -/
 theorem released_sender_waits_for_capture (h : HSt) (sr0 : Nat) (hh : h.held = some sr0) :
-    (∀ x, (hstep h (HAct.base (Act.go x))).1.s = h.s ∧ (hstep h (HAct.base (Act.go x))).2 = []) ∧
     (hstep h HAct.resume).2 = (step h.s (Act.go sr0)).2 ++
-        (runFrom (step h.s (Act.go sr0)).1 [] (h.queue.map Act.go)).2 ∧
-    (hstep h HAct.resume).1.s = (runFrom (step h.s (Act.go sr0)).1 [] (h.queue.map Act.go)).1 := by
-  refine ⟨?_, ?_, ?_⟩
-  · intro x
-    simp only [hstep, hh]
-    split <;> exact ⟨rfl, rfl⟩
-  · simp only [hstep, hh, runFrom]
+        (runFrom (step h.s (Act.go sr0)).1 []
+          (h.queue.map Act.go ++ h.blocked.map fun x => Act.align x.1 x.2)).2 ∧
+    (hstep h HAct.resume).1.s = (runFrom (step h.s (Act.go sr0)).1 []
+          (h.queue.map Act.go ++ h.blocked.map fun x => Act.align x.1 x.2)).1 := by
+  refine ⟨?_, ?_⟩
+  · simp only [hstep, hh, runFrom, List.cons_append]
     rw [runFrom_acc]
     simp
-  · simp only [hstep, hh, runFrom]
+  · simp only [hstep, hh, runFrom, List.cons_append]
     rw [runFrom_acc]
 
 /-- **Holds change nothing.** Every schedule with holds yields exactly the state and trace of a plain schedule, so
@@ -242,8 +302,9 @@ theorem held_schedule_is_plain_schedule (s0 : St) (has : List HAct) (hpl : HPlai
   obtain ⟨as, e1, e2, e3⟩ := hrun_sim has { s := s0 } []
   refine ⟨as, ?_, e1, e2⟩
   intro a ha
-  rcases e3 a ha with hb | ⟨x, rfl⟩
+  rcases e3 a ha with hb | ⟨x, rfl⟩ | ⟨sr, it, rfl⟩
   · exact hpl a hb
+  · rfl
   · rfl
 
 /-- the consistent cut for schedules with holds -/
@@ -268,22 +329,38 @@ theorem failed_ack_leaves_record (s : St) (sr id : Nat) (hid : id = (virtCk s id
     (barrier s sr id).1.ckpt = some (id, []) ∧ (barrier s sr id).1.pending = [] ∧
     (barrier s sr id).1.ackFails = false ∧
     (∀ i it, (barrier s sr id).1.slots i ≠ some (it, false)) ∧
-    Obs.ackfail id ∈ (barrier s sr id).2 ∧ ∀ j, Obs.ack j ∉ (barrier s sr id).2 := by
+    Obs.ackfail id ∈ (barrier s sr id).2 ∧ (∀ j, Obs.ack j ∉ (barrier s sr id).2) ∧
+    (s.dbFails = true → ∀ j S T, Obs.snap j S T ∉ (barrier s sr id).2) := by
   rw [barrier_failed hid hlast haf]
   have hf := flush_ext s
-  refine ⟨by simp [← hid], flush_pending s, rfl, ?_, by simp [← hid], ?_⟩
+  refine ⟨by simp [← hid], flush_pending s, rfl, ?_, by simp [← hid], ?_, ?_⟩
   · intro i it
     simp only [release]
     cases (flush s).1.slots i <;> simp
   · intro j hj
     simp only [List.cons_append, List.nil_append, List.mem_cons, List.mem_append, reduceCtorEq, false_or] at hj
+    rcases hj with (hj | hj) | hj
+    · rcases hf.onlyH _ hj with ⟨_, _, _, h⟩ | ⟨_, _, h⟩ <;> cases h
+    · split at hj <;> simp at hj
+    · simp at hj
+  · intro hdb j S T hj
+    simp only [hdb, if_true, List.append_nil, List.cons_append, List.nil_append, List.mem_cons, List.mem_append,
+      reduceCtorEq, false_or] at hj
     rcases hj with hj | hj
     · rcases hf.onlyH _ hj with ⟨_, _, _, h⟩ | ⟨_, _, h⟩ <;> cases h
     · simp at hj
 
-/-- with the completed record in place no sender is held back any more -/
-theorem stale_record_never_blocks (s : St) (id sr : Nat) (hc : s.ckpt = some (id, [])) : passes s sr = true := by
-  simp [passes, hc]
+/-- **After a failed ack (or a failed `db.Checkpoint`) checkpointing is stuck until the redeploy.** From any state
+in which the completed record of checkpoint `id` is still in place (and no call in flight carries barrier `id`
+again), under every schedule that neither redeploys nor re-sends barrier `id` — failures, cancellations and
+barriers with any other id included — no barrier is accepted, no snapshot is taken and nothing is acknowledged; the
+record stays. (Events keep flowing: nobody is held back, see `stale_record_rejects` for the barriers.) -/
+theorem failed_ack_stuck_until_redeploy (id : Nat) (s : St) (h : StaleInv id s) (as : List Act)
+    (hk : ∀ a ∈ as, a.keepsStale id = true) :
+    (runFrom s [] as).1.ckpt = some (id, []) ∧
+    ∀ x ∈ (runFrom s [] as).2, x.isCkptProgress = false := by
+  obtain ⟨h1, h2⟩ := stale_run as s [] h hk (by intro x hx; cases hx)
+  exact ⟨h1.1, h2⟩
 
 /-- and every barrier carrying another id is rejected (instance of `id_mismatch_rejected`), so no checkpoint with a
 new id can complete until a redeploy replaces the record -/
@@ -377,5 +454,19 @@ example : ((hrunFrom { s := init 2 3 } [] (demoHold.take 8)).1.held, (hrunFrom {
     = (some 1, [0]) := by decide
 example : (snapsOf (hrunFrom { s := init 2 3 } [] demoHold).2).map (fun x => (x.1, x.2.1 [0x61])) = [(1, [1])] := by decide
 example : (hrunFrom { s := init 2 3 } [] demoHold).1.s.kv [0x61] = [1, 9] := by decide
+
+/-- a failed `db.Checkpoint`: no snapshot, the record stays, barrier 2 is rejected, a redeploy recovers -/
+def demoDbFail : List Act :=
+  [.armDbFail, .align 0 (.bar 1), .go 0, .align 0 (.bar 2), .go 0, .redeploy, .align 0 (.bar 2), .go 0]
+
+example : rejectsOf (run 1 1 demoDbFail).2 = [(0, 2, 1)] := by decide
+example : (snapsOf (run 1 1 demoDbFail).2).map (·.1) = [2] := by decide
+
+/-- the state after the failed ack of `demoAckFail` satisfies the hypothesis of `failed_ack_stuck_until_redeploy` -/
+example : (run 1 1 (demoAckFail.take 3)).1.ckpt = some (1, []) := by decide
+
+/-- cancellations in the middle of `demo` change no snapshot -/
+example : (snapsOf (run 2 3 (demo.take 5 ++ [.cancel 0, .cancel 1] ++ demo.drop 5)).2).map (fun x => (x.1, x.2.1 [0x61]))
+    = [(1, [1, 2]), (2, [1, 2, 9])] := by decide
 
 end Rxn.C02
